@@ -21,6 +21,7 @@ BOUNDS = {
     "quick": "n<=5; structure classes incl. nearly-Hermitian / nearly-triangular / nearly-Hessenberg perturbations (2^-20..2^-30, float32 triangle); all 2^(n-2) column masks x 2 entry classes; all 2^(n(n-1)/2) lower support masks for n<=4; scalings 2^+-27",
     "thorough": "n<=7, 3 fill rows",
 }
+THOROUGH_STREAMS = 8
 WALL_BUDGET = {"quick": 300, "thorough": 2400}
 ASSUMPTIONS = ["spectrum invariant: eigenvalues of the complex adjoint compared as multisets with a conditioning-free bound only for normal inputs; otherwise characteristic-polynomial coefficients (trace powers) are compared"]
 
